@@ -167,11 +167,18 @@ Proof.
   eapply dlookup_ok; [apply Hbodies|exact E].
 Qed.
 
-Lemma HSobj_s k m : slookup (stable_of_defs ds) k = Some m -> exists b, m = SObj b /\ forallb okb b = true.
+Lemma is_flb_defs t : is_flb (stable_of_defs ds) t = false.
+Proof.
+  unfold is_flb. rewrite slookup_defs. destruct (dlookup ds (bt t)); cbn; now rewrite andb_false_r.
+Qed.
+Lemma okb_okb2 t : okb t = true -> okb2 (stable_of_defs ds) t = true.
+Proof. intros H. unfold okb2. now rewrite H, is_flb_defs. Qed.
+
+Lemma HSobj_s k b0 : slookup (stable_of_defs ds) k = Some (SObj b0) -> forallb (okb2 (stable_of_defs ds)) b0 = true.
 Proof.
   rewrite slookup_defs. destruct (dlookup ds k) as [b|] eqn:E; [|discriminate]. cbn. intros H. injection H as <-.
-  eexists. split; [reflexivity|]. rewrite forallb_forall. intros x Hx. apply in_map_iff in Hx.
-  destruct Hx as (t & <- & Ht). apply okd_okb.
+  rewrite forallb_forall. intros x Hx. apply in_map_iff in Hx.
+  destruct Hx as (t & <- & Ht). apply okb_okb2, okd_okb.
   pose proof (dlookup_ok ds k b Hbodies E) as Hb. rewrite forallb_forall in Hb. now apply Hb.
 Qed.
 
@@ -422,7 +429,8 @@ Proof.
   destruct (expand_objlike_defined lead cat_fix str_white resub_fix va_fix va_whole max_level (mtable ds) Hobj_m input
               (wfd2_wfd input Hin)) as (n1 & H1).
   { unfold names, mtable. now rewrite !map_length. }
-  destruct (expandS_objlike (stable_of_defs ds) HSobj_s (map btok_of (DSt input)) Hd_b) as (n2 & H2).
+  destruct (expandS_objlike (stable_of_defs ds) HSobj_s (map btok_of (DSt input))) as (n2 & H2).
+  { apply (forallb_impl okb (okb2 (stable_of_defs ds))); [apply okb_okb2|assumption]. }
   exists (n1 + n2). intros fuel Hf. eexists. split; [apply H1; lia|].
   unfold run_spec. rewrite table_ok_defs. cbn [negb]. rewrite sdefined_DSt by assumption.
   rewrite H2 by lia. f_equal. unfold EI_all.
@@ -447,7 +455,8 @@ Proof.
   destruct (expand_objlike lead cat_fix str_white resub_fix va_fix va_whole max_level (mtable ds) Hobj_m input) as (n1 & H1).
   { apply (forallb_impl okt (okt2 (mtable ds))); [apply okt_okt2|assumption]. }
   { unfold names, mtable. now rewrite !map_length. }
-  destruct (expandS_objlike (stable_of_defs ds) HSobj_s (map btok_of input) Hin_b) as (n2 & H2).
+  destruct (expandS_objlike (stable_of_defs ds) HSobj_s (map btok_of input)) as (n2 & H2).
+  { apply (forallb_impl okb (okb2 (stable_of_defs ds))); [apply okb_okb2|assumption]. }
   exists (n1 + n2). intros fuel Hf. eexists. split; [apply H1; lia|].
   unfold run_spec. rewrite table_ok_defs. cbn [negb]. rewrite sdefined_plain by assumption.
   rewrite H2 by lia. f_equal. unfold E_all.
